@@ -400,6 +400,10 @@ def decoder_streams(rng, wires):
 def run_any(ctx, case, mo=None):
     if case.get('kind') == 'concurrent':
         return check_concurrent(ctx, case)
+    if case.get('kind') == 'peer':
+        from vlib import paths; paths.use_repo()
+        obs, probs, mism = check_peer(ctx, case)
+        return dict(obs, wire=obs['wire'][:60].hex() + ('...' if len(obs['wire']) > 60 else '')), probs, mism
     if mo is None and ctx.model is not None:
         mo = ctx.model.call(model_call(case))
     return confirmed(ctx, case, mo)
@@ -488,10 +492,90 @@ def run(ctx):
                 ctx.disagree({'kind': 'decoder', 'base': b, 'wire': w.hex()}, None if co is None else [x.hex() for x in co],
                              None if py is None else [x.hex() for x in py], 'WireSpec.decode vs Python strict receiver', theorem='C02_decode11/C02_decode10')
         ctx.extra['decoder_crosscheck_streams'] = len(streams)
+    # (f) the same property sentence behind the real transports
+    if not too_many(ctx):
+        peers_level(ctx)
+
+# ---------- (f) outbound direction through the real transports (TLS on loopback, SSH against an in-process paramiko server, Unix) ----------
+def gen_peer(rng, transport):
+    base = rng.choice([0, 1])
+    msgs = gen_msgs(rng)
+    delay = 0
+    if rng.random() < 0.5:          # one message far larger than a socket buffer / an SSH packet, the server starts reading late
+        unit = rng.choice(['é€x', '<v>0123456789</v>', '\U0001F600', 'q'])
+        msgs.insert(rng.randrange(len(msgs) + 1), '<data>%s</data>' % (unit * (rng.randint(40000, 400000) // len(unit.encode()))))
+        delay = rng.choice([0, 20, 50])
+    return dict(kind='peer', transport=transport, base=base, msgs=msgs, reader_delay_ms=delay)
+
+def oracle_peer(case, obs):
+    out = []
+    base, mbs = case['base'], [m.encode() for m in case['msgs']]
+    if obs['open_error']:
+        return [('the session could not be opened against the scripted server', None, obs['open_error'])]
+    ch = strict_decode10(obs['client_hello'])
+    if ch is None or len(ch) != 1 or b'hello' not in ch[0] or obs['client_hello'].startswith(b'\n#'):
+        out.append(('the client <hello> is not exactly one end-of-message frame', 'one RFC 4742 frame holding <hello>', obs['client_hello'][:120].hex()))
+    if obs['errors_before_close']:
+        out.append(('session failed although the transport accepted every write', [], obs['errors_before_close']))
+    dec = strict_decode(base, obs['wire'])
+    if dec != mbs:
+        out.append(('strict RFC %s receiver behind the real transport does not get the submitted messages' % ('6242' if base else '4742'),
+                    [m.hex()[:200] for m in mbs], None if dec is None else [m.hex()[:200] for m in dec]))
+    w = obs.get('writes', [])
+    if any(not (0 < n <= l) for _, l, n in w):
+        out.append(('a write count outside 1..len(data) was treated as progress', 'counts in 1..len', [(l, n) for _, l, n in w if not (0 < n <= l)][:5]))
+    for (_, l1, n1), (_, l2, _) in zip(w, w[1:]):
+        if n1 < l1 and l2 != l1 - n1:
+            out.append(('write call does not resubmit the unsent tail', l1 - n1, l2)); break
+    if sum(n for _, _, n in w) != len(obs['wire']):
+        out.append(('octets accepted by the transport != octets received by the peer', sum(n for _, _, n in w), len(obs['wire'])))
+    if obs.get('queue_left'):
+        out.append(('queue not drained within the bound', 0, obs['queue_left']))
+    if obs['worker_alive_after_close']:
+        out.append(('session thread alive after close()', False, True))
+    return out
+
+def check_peer(ctx, case):
+    from harness import c01_peers as q
+    c = dict(case, base=11 if case['base'] == 1 else 10)
+    last = None
+    for _ in range(4):              # wall-clock rig: report only what fails every time
+        obs = q.run_outbound(c)
+        probs = oracle_peer(case, obs)
+        last = (obs, probs, None)
+        if not probs: break
+    return last
+
+def peers_level(ctx):
+    from harness import c01_peers as q
+    rng, quick = ctx.rng, ctx.tier == 'quick'
+    res0 = q.resources()
+    per = {'tls': 5, 'ssh': 5, 'unix': 2} if quick else {'tls': 60, 'ssh': 60, 'unix': 20}
+    n = 0
+    for transport in ('tls', 'ssh', 'unix'):
+        for _ in range(per[transport]):
+            if too_many(ctx): break
+            case = gen_peer(rng, transport)
+            obs, probs, _ = check_peer(ctx, case)
+            n += 1
+            ctx.count({k: case[k] for k in ('kind', 'transport', 'base', 'msgs', 'reader_delay_ms')}, nontrivial=True)
+            ctx.hist('peer_transport', '%s/%s' % (transport, '1.1' if case['base'] else '1.0'))
+            w = obs.get('writes', [])
+            ctx.hist('peer_short_writes', 'none' if not any(x < l for _, l, x in w) else ('1-9' if sum(1 for _, l, x in w if x < l) < 10 else '10+'))
+            ctx.hist('peer_wire_octets', '<1k' if len(obs['wire']) < 1000 else ('<64k' if len(obs['wire']) < 65536 else '>=64k'))
+            if not probs: ctx.traces += 1
+            report(ctx, case, dict(obs, wire=''), probs, None)
+    dfd, extra = q.settle_resources(res0)
+    ctx.extra['peer_cases'] = n
+    ctx.extra['peer_fd_delta_after_all_cases'] = dfd
+    ctx.extra['peer_threads_left_after_all_cases'] = extra
+    if dfd > 0 or extra:
+        ctx.note('peer level left %d file descriptors / threads %r behind' % (dfd, extra))
+
 
 def search(ctx, seeds):
     rng = ctx.rng
-    tries = [c for c in seeds if c.get('kind') != 'decoder']
+    tries = [c for c in seeds if c.get('kind') not in ('decoder', 'peer')]
     for _ in range(1500): tries.append(gen_case(rng))
     for base in (0, 1): tries.extend(failure_cases(base, ['ab', 'naïve'], 3))
     for _ in range(30): tries.append(gen_concurrent(rng))
@@ -519,7 +603,8 @@ def replay(doc):
     if case.get('kind') == 'decoder':
         print('decoder cross-check case', case); return False
     obs, probs, _ = run_any(_NoModel, case)
-    print('case     :', {k: v for k, v in case.items() if k != 'answers'}, 'answers:', case.get('answers', [])[:12])
+    print('case     :', {k: (v if k != 'msgs' else [m if len(m) < 80 else m[:60] + '...(%d chars)' % len(m) for m in v]) for k, v in case.items() if k != 'answers'},
+          'answers:', case.get('answers', [])[:12])
     if probs:
         for what, exp, act in probs:
             print('FAILS    :', what); print('expected :', exp); print('actual   :', act)
